@@ -45,7 +45,7 @@ def classify(ctx: HandlerContext) -> Classification:
 
     output_file = _extract_output_file(tokens)
 
-    if output_file:
+    if output_file and output_file != "-":
         return Classification(
             "allow",
             description=f"{base} -o (write to file)",
